@@ -39,7 +39,18 @@ static J gen_history(Chooser &ch, bool two_d)
       o.cross_section = two_d ? 2 : 1;
       o.depth_surfaces = true; // point-wise max depths: parsed with the world's own coordinate system, whatever was parsed before
       g::GW w = (siblings && i == 1) ? gws[0] : g::gen_world(ch, o);
-      if (siblings && i == 1) perturb_parameters(w.root);
+      if (siblings && i == 1)
+        {
+          perturb_parameters(w.root);
+          // ... and other world-level constants (every model reads them through its world: thermal diffusivity in the cooling models,
+          // expansivity / specific heat / gravity in every adiabat)
+          auto scale = [&](const char *key, double dflt, double f) { w.root[key] = (w.root.has(key) ? w.root.at(key).num() : dflt) * f; };
+          scale("thermal diffusivity", 0.804e-6, 1.75);
+          scale("thermal expansion coefficient", 3.5e-5, 0.8);
+          scale("specific heat", 1250, 1.2);
+          if (w.root.has("gravity model") && w.root.at("gravity model").has("magnitude")) w.root["gravity model"]["magnitude"] = w.root.at("gravity model").at("magnitude").num() * 0.9;
+          else { J g = J::obj(); g["model"] = "uniform"; g["magnitude"] = 8.5; w.root["gravity model"] = g; }
+        }
       if (!siblings)
         {
           // feature names from one pool for all worlds, in an order of their own in each: the same name then sits at different
